@@ -95,4 +95,41 @@ theorem above_mirror (s : Seg) (hs : s.lo ≤ s.hi) (x : Rat) : above s.mirror (
   simp only [max_def]
   split_ifs <;> linarith
 
+/-! ### lists of streams -/
+
+theorem aboveAll_shift (d : Rat) (ss : List Seg) (x : Rat) : aboveAll (ss.map (Seg.shift d)) (x + d) = aboveAll ss x := by
+  unfold aboveAll
+  rw [List.map_map]
+  congr 1
+  apply List.map_congr_left
+  intro s _
+  exact above_shift d s x
+
+theorem total_map_eq (f : Seg → Seg) (hf : ∀ s, duty (f s) = duty s) (ss : List Seg) : total (ss.map f) = total ss := by
+  unfold total
+  rw [List.map_map]
+  congr 1
+  apply List.map_congr_left
+  intro s _
+  exact hf s
+
+theorem aboveAll_scale (k : Rat) (ss : List Seg) (x : Rat) : aboveAll (ss.map (Seg.scale k)) x = k * aboveAll ss x := by
+  induction ss with
+  | nil => simp [aboveAll]
+  | cons s ss ih => rw [List.map_cons, aboveAll_cons, aboveAll_cons, ih, above_scale]; ring
+
+theorem total_scale (k : Rat) (ss : List Seg) : total (ss.map (Seg.scale k)) = k * total ss := by
+  induction ss with
+  | nil => simp [total]
+  | cons s ss ih => rw [List.map_cons, total_cons, total_cons, ih, duty_scale]; ring
+
+theorem aboveAll_mirror (ss : List Seg) (hs : ∀ s ∈ ss, s.lo ≤ s.hi) (x : Rat) :
+    aboveAll (ss.map Seg.mirror) (-x) = total ss - aboveAll ss x := by
+  induction ss with
+  | nil => simp [aboveAll, total]
+  | cons s ss ih =>
+    rw [List.map_cons, aboveAll_cons, aboveAll_cons, total_cons, ih (fun s' h' => hs s' (by simp [h'])),
+      above_mirror s (hs s (by simp))]
+    ring
+
 end OP
